@@ -4,7 +4,7 @@
     Only statements, [exact], [Print Assumptions] and [Example]s live here. *)
 From Coq Require Import List NArith ZArith Bool Arith.
 From Atlas Require Import Base.Bytes Diff.Schema Diff.DiffModel Diff.DiffSqlite
-  Lex.DownModel Lex.DownProofs
+  Lex.DownModel Lex.DownProofs Lex.DownAlterModel Lex.DownAlterProofs
   Diff.DiffProofs Diff.DiffSqliteProofs
   Sqlite.PlanModel Sqlite.EngineModel Sqlite.InspectModel Sqlite.ReverseModel Sqlite.ReverseProofs
   Sqlite.ReverseDropProofs Sqlite.ReverseStaticProofs
@@ -469,6 +469,48 @@ Proof.
   intros c [<-|[<-|[<-|[]]]]; (split; [reflexivity|split; [reflexivity|]]);
     intros s Hs; vm_compute in Hs; intuition; subst; reflexivity.
 Qed.
+
+(** ** 2a. The flag and the reverse of one ALTER TABLE (sql/mysql, sql/postgres: alterTable)
+
+    Both planners build one ALTER TABLE per ModifyTable and accumulate over its sub-changes, arm by
+    arm, the flag [reversible] (and-ed) and the list of reverse sub-changes (Lex/DownAlterModel.v,
+    tied to mysql.DefaultPlan / postgres.DefaultPlan on every ordered pair and triple of sub-change
+    kinds).  For every list of arms, in every order: the change carries a reverse exactly when every
+    arm is reversible (no unnamed CHECK, no dropped generation expression) -- an irreversible arm
+    anywhere in the list, before or after reversible ones, clears the flag ... *)
+Theorem C17_alter_flag :
+  forall arms : list arm,
+  (alterTable_mysql arms <> None <-> forallb arm_reversible arms = true) /\
+  (alterTable_postgres arms <> None <-> forallb arm_reversible arms = true).
+Proof. exact alter_flag_lemma. Qed.
+Print Assumptions C17_alter_flag.
+
+(** ... and then the reverse ALTER holds the inverse of EVERY arm, last arm first (PostgreSQL: of the
+    arms as sorted, constraint drops first), provided no arm is a MySQL AddAttr / DropAttr. *)
+Theorem C17_alter_reverse_complete_except :
+  forall (arms r : list arm),
+  forallb not_attr arms = true ->
+  (alterTable_mysql arms = Some r -> r = List.rev arms) /\
+  (alterTable_postgres arms = Some r -> r = List.rev (pg_sorted arms)).
+Proof. exact alter_complete_lemma. Qed.
+Print Assumptions C17_alter_reverse_complete_except.
+
+(** Without the proviso it is false of the MySQL planner: the AddAttr / DropAttr arms write the
+    attribute, append nothing and leave the flag alone (known finding C17-mysql-table-attr-no-reverse). *)
+Theorem C17_alter_reverse_complete_refuted :
+  exists (arms r : list arm), alterTable_mysql arms = Some r /\ r <> List.rev arms.
+Proof.
+  exists [mkArm KAttr [116]%N; mkArm KOther [99]%N]. eexists. split; [vm_compute; reflexivity|]. discriminate.
+Qed.
+Print Assumptions C17_alter_reverse_complete_refuted.
+
+Example C17_alter_nonvacuous :
+  (* unnamed CHECK first, named CHECK second: no reverse, in both orders *)
+  alterTable_mysql [mkArm KCheckUnnamed [117]%N; mkArm KCheckNamed [107]%N] = None /\
+  alterTable_mysql [mkArm KCheckNamed [107]%N; mkArm KCheckUnnamed [117]%N] = None /\
+  alterTable_postgres [mkArm KOther [97]%N; mkArm KCheckNamed [107]%N; mkArm KDropConst [100]%N] =
+    Some [mkArm KCheckNamed [107]%N; mkArm KOther [97]%N; mkArm KDropConst [100]%N].
+Proof. vm_compute. auto. Qed.
 
 (** ** 2b. The flag of the SQLite planner (sql/sqlite/migrate.go: PlanChanges)
 
